@@ -28,10 +28,11 @@ ASSUMPTIONS = [
     "circuit breaker disabled here (C08 covers it); real-time cache TTL (300 s) is never reached within a case",
 ]
 RULE += " Added after the seeded rounds: " + 'Stub agents report a generated confidence (0.0 / 0.5 / 0.9 / 1.0) and raise one of 16 exception types.'
+RULE += ' Unknown verdict words (empty, fragments and extensions of PERMIT / EXECUTE); `bulk`: 999..1003 distinct permitted requests first (bounds of the decision cache and the result log), then requests that revisit evicted and surviving prompts.'
 EXHAUSTIVE_NOTE = {"quick": "6x7x7 verdict table x (4 prompts x cache on/off + 3 confidence corners) = 3234 cells, complete",
                    "thorough": "6x7x7 verdict table x (4 prompts x cache on/off + 3 confidence corners) = 3234 cells, complete"}
 
-_POOL = ["", "deploy", "deploy ", "Deploy", "a" * 300, "delete all", "x", "café ☃"]
+_POOL = ["", "deploy", "deploy ", "Deploy", "a" * 300, "delete all", "x", "café ☃", "bulk-0", "bulk-1", "bulk-500", "bulk-1000"]
 _prompt = st.one_of(st.sampled_from(_POOL), st.text(max_size=20))
 _conf = st.sampled_from([0.9, 0.9, 0.0, 1.0, 0.5])
 _ALLK = KINDS + sorted(RAISE_KINDS) + UNKNOWN_KINDS
@@ -39,11 +40,16 @@ _req = st.tuples(_prompt, st.sampled_from(_ALLK), st.sampled_from(_ALLK + ["PERM
 
 
 def strategy(tier):
-    return st.fixed_dictionaries({"logic": st.sampled_from(LOGICS), "cache": st.booleans(),
+    # "bulk": that many distinct permitted requests first - histories longer than the decision cache and the result log (1000 entries each)
+    return st.fixed_dictionaries({"logic": st.sampled_from(LOGICS), "cache": st.booleans(), "bulk": st.sampled_from([0] * 40 + [1001, 1003]),
                                   "reqs": st.lists(_req, min_size=1, max_size=10)})
 
 
 def enumerate_cases(tier):
+    for logic in LOGICS:
+        for bulk in (999, 1000, 1001):
+            yield {"logic": logic, "cache": True, "bulk": bulk,
+                   "reqs": [["bulk-0", "BLOCK", "BLOCK"], ["bulk-1", "BLOCK", "BLOCK"], ["bulk-1000", "EXECUTE", "BLOCK"], ["bulk-0", "EXECUTE", "PERMIT"], ["bulk-500", "BLOCK", "PERMIT"]]}
     for logic, u in itertools.product(LOGICS, UNKNOWN_KINDS):
         for other in ("EXECUTE", "PERMIT", "BLOCK", "FAILURE"):
             for cache in (False, True):
@@ -70,7 +76,10 @@ def judge(case):
     if logic not in ("AND",):
         out.nontrivial = True
     out.label("logic:" + logic)
-    for i, req in enumerate(case["reqs"]):
+    bulk = case.get("bulk", 0)
+    if bulk:
+        out.label("bulk")
+    for i, req in enumerate([["bulk-%d" % k, "EXECUTE", "PERMIT"] for k in range(bulk)] + case["reqs"]):
         prompt, e, a = req[:3]
         ex.kind, ass.kind = e, a
         ex.conf, ass.conf = (req[3], req[4]) if len(req) >= 5 else (0.9, 0.9)     # a verdict is a verdict at any reported confidence
